@@ -699,7 +699,7 @@ def authenticated_regions(c: dict) -> list[tuple[int, int, str]]:
 
 
 def header_length(container_version: int, n_images: int, srk_kind: Optional[str], cert_kind: Optional[str] = None,
-                  blob_bits: Optional[int] = None) -> int:
+                  blob_bits: Optional[int] = None, srk2_kind: Optional[str] = None) -> int:
     """Length of a container header (header + image array + signature block) computed from the format alone.
 
     Used by the harness to confirm that an "Image overlapping" refusal of SPSDK is justified (an RSA SRK
@@ -727,7 +727,11 @@ def header_length(container_version: int, n_images: int, srk_kind: Optional[str]
     else:
         if srk_kind:
             pos += 8 + 4 + 4 * 76 + 8 + key_len(srk_kind)
+            if srk2_kind:  # second table of the array (+ its SRK data) and the second container signature
+                pos += 4 + 4 * 76 + 8 + key_len(srk2_kind)
             pos += sig_len(srk_kind)
+            if srk2_kind:
+                pos += sig_len(srk2_kind)
         if cert_kind:
             pos += 40 + 76 + 8 + key_len(cert_kind) + sig_len(srk_kind or cert_kind)
         if blob_bits:
